@@ -106,7 +106,7 @@ struct Sw<'a, B: SddBuilder<'a>> {
     shape: VtShape,
     canon: HashMap<TT, (u8, usize, bool)>,
     checked_nodes: HashSet<usize>,
-    f: Vec<SddPtr<'a>>,
+    f: FStore<SddPtr<'a>>,
     rep: Report,
     opno: u64,
     stop: bool,
@@ -480,7 +480,7 @@ fn sweep<'a, B: SddBuilder<'a>>(b: &'a B, cfg: &SCfg, ctx: &Ctx) -> Report {
         shape: VtShape::new(&cfg.vtree),
         canon: HashMap::new(),
         checked_nodes: HashSet::new(),
-        f: Vec::new(),
+        f: FStore::empty(SddPtr::PtrFalse),
         rep: Report::default(),
         opno: 0,
         stop: false,
@@ -541,7 +541,7 @@ fn sweep<'a, B: SddBuilder<'a>>(b: &'a B, cfg: &SCfg, ctx: &Ctx) -> Report {
         v.dedup();
         v
     };
-    s.f = vec![SddPtr::PtrFalse; total];
+    s.f = FStore::new(total, SddPtr::PtrFalse, cfg.pool != 0);
     // materialise every operand (checked like any other result)
     for (k, &t) in dom.iter().enumerate() {
         let r = guarded(|| shannon(b, t as TT, 0, n, !cfg.semantic));
@@ -747,6 +747,18 @@ pub fn configs(ctx: &Ctx, semantic: bool, hash: bool) -> Vec<SCfg> {
                 continue;
             }
             out.push(SCfg { n: 4, vtree: vt.clone(), compress, issue: i + ctx.seed as usize, ite_pool: 10, pool: 1, ..base.clone() });
+        }
+    }
+    // n = 5 (thorough): operand pool on every shape with the identity and the reversed leaf order
+    // and on a slice of the other labellings
+    if !quick {
+        let mut v5: Vec<VT> = vtrees_over(&[0, 1, 2, 3, 4]);
+        v5.extend(vtrees_over(&[4, 3, 2, 1, 0]));
+        v5.extend(all_vtrees(5).into_iter().skip(7).step_by(97));
+        for (i, vt) in v5.into_iter().enumerate() {
+            for &compress in modes.iter() {
+                out.push(SCfg { n: 5, vtree: vt.clone(), compress, issue: i + ctx.seed as usize, ite_pool: 8, pool: 1, ..base.clone() });
+            }
         }
     }
     // n = 4, all 65 536 functions with a stride over the pairs
